@@ -1210,7 +1210,7 @@ Section Converters.
   Qed.
 
   (* ----- imports ----- *)
-  Lemma costs_convert_import_items c nodes mr : kids_ok nodes -> costs (convert_import_items swidth cfg c nodes mr) (sumN W nodes).
+  Lemma costs_convert_import_items fs c nodes mr : kids_ok nodes -> costs (convert_import_items swidth cfg fs c nodes mr) (sumN W nodes).
   Proof.
     intros Hk. unfold convert_import_items.
     set (nodes' := import_items_final cfg mr nodes).
@@ -1225,7 +1225,7 @@ Section Converters.
       (apply costs_bind_r; [(apply (kids_call _ _ _ Hk' Hin); exact I)|intros; apply costs_ret_any]).
   Qed.
 
-  Lemma costs_convert_import kids c : kids_ok kids -> costs (convert_import swidth cfg kids c) (sumN W kids).
+  Lemma costs_convert_import fs kids c : kids_ok kids -> costs (convert_import swidth cfg fs kids c) (sumN W kids).
   Proof.
     intros Hk. unfold convert_import.
     set (divider := match position _ kids 0 with Some i => i | None => length kids end).
